@@ -45,6 +45,12 @@ class Operator(abc.ABC):
         """
         return ()
 
+    def operand_divisor(self, divisor: int) -> int:
+        """
+        The divisor this operator queries the modulo of its operands with when its own modulo is queried with the given one.
+        """
+        return divisor
+
     @abc.abstractmethod
     def __repr__(self) -> str:
         raise NotImplementedError
@@ -95,7 +101,7 @@ class PaddingOperator(Operator):
     def modulo(self, divisor: int) -> typing.Set[int]:
         r = self._padding
         mx = self.max
-        lcm = least_common_multiple(r, divisor)
+        lcm = self.operand_divisor(divisor)
         out = set()  # type: typing.Set[int]
         for x in self._child.modulo(lcm):
             assert x <= mx and x < lcm
@@ -116,6 +122,9 @@ class PaddingOperator(Operator):
     @property
     def children(self) -> typing.Sequence[Operator]:
         return (self._child,)
+
+    def operand_divisor(self, divisor: int) -> int:
+        return least_common_multiple(self._padding, divisor)
 
     def _pad(self, x: int) -> int:
         r = self._padding
@@ -306,10 +315,7 @@ class MemoizationOperator(Operator):
 
     def modulo(self, divisor: int) -> typing.Set[int]:
         if divisor not in self._modula:
-            self._memoize_operands_first(
-                lambda op: divisor in op._modula,
-                lambda op: op._modula.__setitem__(divisor, op._child.modulo(divisor)),
-            )
+            self._memoize_modulo_operands_first(divisor)
         return self._modula[divisor]
 
     @property
@@ -364,6 +370,30 @@ class MemoizationOperator(Operator):
                     continue  # Which means that everything below is memoized, too, or is not needed.
                 pending.append((op, True))
             pending.extend((x, False) for x in op.children)
+
+    def _memoize_modulo_operands_first(self, divisor: int) -> None:
+        """
+        Like :meth:`_memoize_operands_first` for the modulo, where the divisor an operator queries its operands with is
+        not necessarily the divisor it is queried with itself (see :meth:`Operator.operand_divisor`): each operator
+        is memoized for exactly the divisors its users will ask for.
+        """
+        visited = set()  # type: typing.Set[typing.Tuple[int, int]]
+        pending = [(self, divisor, False)]  # type: typing.List[typing.Tuple[Operator, int, bool]]
+        while pending:
+            op, div, operands_done = pending.pop()
+            if operands_done:
+                assert isinstance(op, MemoizationOperator)
+                op._modula[div] = op._child.modulo(div)
+                continue
+            if (id(op), div) in visited:
+                continue
+            visited.add((id(op), div))
+            if isinstance(op, MemoizationOperator):
+                if div in op._modula:
+                    continue
+                pending.append((op, div, True))
+            operand_divisor = op.operand_divisor(div)
+            pending.extend((x, operand_divisor, False) for x in op.children)
 
     def _memoize_min(self) -> None:
         self._min = self._child.min
